@@ -91,6 +91,7 @@ func (Engine) Run(c *simkit.Choices, x *simkit.Ctx) *simkit.Violation {
 		}
 		sc.EOFWithData = c.Bool()
 		simkit.SetCurrent(sc)
+	x.Alive()
 		st.Eval(1)
 		st.Distinct(simkit.NewDigest().Str(sc.Src + ">" + sc.Dst).Bytes(doc.Bytes).Ints(sc.Reads).Int(b2i(sc.EOFWithData)).Sum())
 
